@@ -6,7 +6,7 @@ cd "$(dirname "$0")"
 missed=0
 for d in seeded/*/; do
   name=$(basename "$d"); id=$(python3 -c "import json;print(json.load(open('$d/meta.json'))['property'])")
-  git -C /repo apply "$d/patch.diff" || { echo "$name: patch does not apply"; missed=1; continue; }
+  git -C /repo apply "$PWD/$d/patch.diff" || { echo "$name: patch does not apply"; missed=1; continue; }
   ./check "$id" --tier quick > /tmp/seedall_$name.log 2>&1; rc=$?
   git -C /repo checkout -- .
   v=$(grep -c '^VIOLATION' /tmp/seedall_$name.log); rm -f /tmp/seedall_$name.log
